@@ -259,6 +259,24 @@ def op_generator(kind, params):
     return run
 
 
+def op_generator_twice(kind, params):
+    """generate -> reveal the first generated plate -> generate again for the rest (the names the generator issues the
+    second time collide with the revealed plate's name).  Whatever the library does here - on this tree it refuses - it
+    must do the same every time for the same generator state."""
+    def run(seed, variant, tmp):
+        screen = input_screen(variant)
+        rng = np.random.default_rng(seed)
+        mk = lambda: {"pairwise": R.PairwisePlateGenerator, "segregate": R.SampleSegregatingPermutationPlateGenerator}[kind](**params)  # noqa: E731
+        first = mk().generate_plates(screen, rng)
+        un = sorted(int(p.plate_id) for p in first.plates if not p.is_observed)
+        revealed = R.reveal_plates(first, [un[0]])
+        try:
+            return _snap(mk().generate_plates(revealed, rng))
+        except ValueError as exc:
+            return ("refused", type(exc).__name__)
+    return run
+
+
 def op_smoother(cls, params):
     def run(seed, variant, tmp):
         screen = input_screen(variant)
@@ -444,6 +462,8 @@ def operations(tier):
         ops[f"gen:pairwise({s},{a})"] = op_generator("pairwise", {"subset_size": s, "anchor_size": a})
     ops["gen:permutation"] = op_generator("permutation", {})
     ops["gen:segregate(2)"] = op_generator("segregate", {"max_plate_size": 2})
+    ops["gen:segregate(2):again-after-reveal"] = op_generator_twice("segregate", {"max_plate_size": 2})
+    ops["gen:pairwise(1,0):again-after-reveal"] = op_generator_twice("pairwise", {"subset_size": 1, "anchor_size": 0})
     ops["smooth:merge_min(2)"] = op_smoother("MergeMinPlateSmoother", {"min_size": 2})
     ops["smooth:merge_top_bottom(1)"] = op_smoother("MergeTopBottomPlateSmoother", {"n_iterations": 1})
     ops["smooth:fixed(1)"] = op_smoother("FixedSizeSmoother", {"plate_size": 1})
